@@ -98,6 +98,9 @@ func loadGen(repo string, patterns []string, specDir string) (*Gen, error) {
 		for k, v := range sf.Preds {
 			g.globalPreds[k] = v
 		}
+		for _, gh := range sf.Ghosts {
+			g.ghost[gh[0]] = map[string]string{"int": SInt, "bool": SBool}[gh[1]]
+		}
 		g.specFiles = append(g.specFiles, f)
 	}
 	// contract files in loaded module packages
@@ -244,7 +247,15 @@ func isLogCall(fn *types.Func, call *ast.CallExpr) bool {
 		}
 	}
 	if sel, ok := call.Fun.(*ast.SelectorExpr); ok {
-		if id, ok := sel.X.(*ast.Ident); ok && (id.Name == "log" || id.Name == "logger") {
+		name := ""
+		switch x := sel.X.(type) {
+		case *ast.Ident:
+			name = x.Name
+		case *ast.SelectorExpr:
+			name = x.Sel.Name
+		}
+		switch name {
+		case "log", "logger", "trace", "metrics", "metricsTracer", "mt", "tracer":
 			return true
 		}
 	}
